@@ -24,7 +24,7 @@ ASSUMPTIONS = [
     "results are compared structurally: strings, booleans, indices, node lists as pre-order positions, error lists as (code, message, "
     "node position)",
 ]
-REQUIRED = ["snapshots_compared", "second_pass_results_compared", "trees_needing_xml_escaping", "op:export.to_xml", "op:metapype_io.to_xml",
+REQUIRED = ["imported_trees_with_default_namespace", "snapshots_compared", "second_pass_results_compared", "trees_needing_xml_escaping", "op:export.to_xml", "op:metapype_io.to_xml",
             "op:validate.tree", "op:evaluate.tree", "op:Node.is_equal", "op:find_all_descendants", "op:metapype_io.to_json"]
 EXHAUSTIVE = {"quick": False, "thorough": False}
 
@@ -119,9 +119,19 @@ def operations(root, rng):
                 return P(acc)
 
             add("find_all_descendants", fad)
-        path = [rng.choice(names) for _ in range(rng.randint(0, 3))]
-        add("find_single_node_by_path", lambda n=n, path=path: P(n.find_single_node_by_path(list(path))))
-        add("find_all_nodes_by_path", lambda n=n, path=path: P(n.find_all_nodes_by_path(list(path))))
+        paths = [[rng.choice(names) for _ in range(rng.randint(0, 3))]]
+        below = snapshot.walk(n)[1:]
+        for target in (rng.sample(below, min(3, len(below))) if below else []):
+            # a path that really exists below n (fans out wherever same-named siblings exist)
+            real = []
+            x = target
+            while x is not n and x is not None:
+                real.append(x.name)
+                x = x.parent
+            paths.append(list(reversed(real)))
+        for path in paths:
+            add("find_single_node_by_path", lambda n=n, path=path: P(n.find_single_node_by_path(list(path))))
+            add("find_all_nodes_by_path", lambda n=n, path=path: P(n.find_all_nodes_by_path(list(path))))
         if n.name in mrule.node_mappings:
             r = mrule.get_rule(n.name)
             for nm in names[:3]:
@@ -129,6 +139,10 @@ def operations(root, rng):
             if all(c.name in emlkit.spec_of(mrule.node_mappings[n.name]).names for c in n.children):
                 cand = Node(rng.choice(emlkit.spec_of(mrule.node_mappings[n.name]).names or ["x"]))
                 add("Rule.child_insert_index", lambda r=r, n=n, cand=cand: r.child_insert_index(n, cand))
+                if n.children:
+                    # "where would this child go?" asked about a node that is already attached
+                    own = rng.choice(n.children)
+                    add("Rule.child_insert_index", lambda r=r, n=n, own=own: r.child_insert_index(n, own))
     return ops, other
 
 
@@ -203,8 +217,9 @@ def run(ctx, params):
     gen = treegen.Gen()
     rng = ctx.rng
     xml_alph = [c for c in nodegen.ALPH if c not in ("\x00", "\x01", "\x1f", "\r")]
+    from vlib import xmlgen
     for i in range(params["trees"]):
-        k = i % 4
+        k = i % 5
         if k == 0:
             t, origin = gen.valid_tree(rng.choice(["eml", "dataset"]) if rng.random() < 0.5 else rng.choice(anytrees.ROOTS), rng,
                                        rng.choice([5, 20, 60])), "generator-valid"
@@ -218,9 +233,20 @@ def run(ctx, params):
             (t, _log), origin = anytrees.valid_mutated(rng, gen, rng.choice([5, 20, 60]), rng.randint(1, 5)), "mutated"
         elif k == 2:
             t, origin = anytrees.freeform(rng, gen, rng.choice([3, 10, 30])), "freeform"
-        else:
+        elif k == 3:
             t, origin = nodegen.random_tree(rng, rng.choice([2, 6, 15]), names=nodegen.NAMES + ["dataset", "creator", "title"],
                                             text_alph=xml_alph, p_ns=0.5), "api-built"
+        else:
+            # a tree as the XML importer builds it (children sharing their parent's map object), with default namespaces
+            doc = xmlgen.random_doc(rng, rng.choice([3, 8, 20]), names=xmlgen.EML_NAMES)
+            stack = [doc]
+            while stack:
+                e = stack.pop()
+                if rng.random() < 0.3:
+                    e["decls"][None] = rng.choice(["urn:default:1", "urn:default:2"])
+                stack.extend(x for kind, x in e["items"] if kind == "elem")
+            t, origin = metapype_io.from_xml(xmlgen.serialize(rng, doc), clean=rng.random() < 0.5), "imported-xml"
+            ctx.count("imported_trees_with_default_namespace")
         if needs_escaping(t):
             ctx.count("trees_needing_xml_escaping")
         ctx.case(judge, ctx, t, origin)
